@@ -84,6 +84,26 @@ def fbits(x):
     return struct.pack(">d", x).hex()
 
 
+def compile_source(s, filename="<verif>"):
+    """compile a source entry {src, mode, optimize, shift_defs}; shift_defs = k moves the `def` / `class` / lambda
+    lines of the parsed tree k lines DOWN and leaves their bodies where they are, so the body lines of every such
+    scope lie BELOW its co_firstlineno (what code generators and ast.copy_location produce)"""
+    import ast
+
+    src = s["src"]
+    mode = s.get("mode", "exec")
+    k = s.get("shift_defs", 0)
+    if not k:
+        return compile(src, filename, mode, dont_inherit=True, optimize=s.get("optimize", 0))
+    tree = ast.parse(src, filename, mode)
+    for node in ast.walk(tree):
+        if isinstance(node, (ast.FunctionDef, ast.AsyncFunctionDef, ast.ClassDef, ast.Lambda)):
+            node.lineno += k
+            if getattr(node, "end_lineno", None) is not None and node.end_lineno < node.lineno:
+                node.end_lineno = node.lineno
+    return compile(tree, filename, mode, dont_inherit=True, optimize=s.get("optimize", 0))
+
+
 def dec(v):
     """decimal digits of an int of any size (str() refuses more than 4300 digits); the harness' own conversion"""
     if abs(v) < 10 ** 4000:
